@@ -205,9 +205,12 @@ class _Faulty:
         super().__init__()
         from .common import _st_store_blob, _st_sync_paths
 
+        from .common import _st_fetch_blob
+
         cls = dict(self.classes["Store"])
         cls["store_blob"] = _faulty(_st_store_blob, "store_blob")
         cls["sync_paths"] = _faulty(_st_sync_paths, "sync_paths")
+        cls["fetch_blob"] = _faulty(_st_fetch_blob, "fetch_blob")  # e.g. a blob whose class is not importable yet
         self.classes["Store"] = cls
 
     def signals(self, ctx):
@@ -223,4 +226,8 @@ class LRUCacheStore_sync_paths_faulty(_Faulty, LRUCacheStore_sync_paths):
     pass
 
 
-SPECS = [LRUCacheStore_store_blob_faulty, LRUCacheStore_sync_paths_faulty, LRUCache_get, LRUCache_put, LRUCacheStore_has_blob, LRUCacheStore_fetch_blob, LRUCacheStore_store_blob, LRUCacheStore_sync_paths]
+class LRUCacheStore_fetch_blob_faulty(_Faulty, LRUCacheStore_fetch_blob):
+    pass
+
+
+SPECS = [LRUCacheStore_store_blob_faulty, LRUCacheStore_sync_paths_faulty, LRUCacheStore_fetch_blob_faulty, LRUCache_get, LRUCache_put, LRUCacheStore_has_blob, LRUCacheStore_fetch_blob, LRUCacheStore_store_blob, LRUCacheStore_sync_paths]
